@@ -82,6 +82,38 @@ def decodeSpec (p : List Nat) : Except FrErr (List (List Nat) × List Nat) :=
 def abiOffset (p : List Nat) : Nat := be ((p.drop 96).take 32)
 def abiLength (p : List Nat) (off : Nat) : Nat := be ((p.drop off).take 32)
 
+/-! ### the fixed-layout decoding that lives in /repo's `report::decode` (the per-schema field
+decoders `ReportDataV*::decode` are an external crate and stay unmodelled) -/
+inductive Head where
+  | short                    -- `decode_feed_id`: DataTooShort("feed_id")
+  | unsupported (v : Nat)    -- DecodeError::UnsupportedVersion(v)
+  | supported (v : Nat)      -- handed to `ReportDataV{v}::decode`
+  deriving DecidableEq, Repr
+
+/-- `decode_feed_id` + `decode_version` + the `match version` of `decode`; `none` = a slice panic -/
+def decodeHead (p : List Nat) : Option Head :=
+  if p.length < 32 then some .short
+  else
+    match slice p 0 32 with                       -- data[..WORD_SIZE]
+    | none => none
+    | some id =>
+      match slice id 0 2 with                     -- id.0[0..2]
+      | none => none
+      | some vb =>
+        let v := be vb                            -- u16::from_be_bytes
+        if v = 2 ∨ v = 3 ∨ v = 7 ∨ v = 8 ∨ v = 11 then some (.supported v) else some (.unsupported v)
+
+/-- `decode_market_status` (v8): 0 Unknown, 1 Closed, 2 Open -/
+def decodeMarketStatus (s : Nat) : Option Nat := if s ≤ 2 then some s else none
+/-- `From<MarketStatus> for ExtendedMarketStatus` on the codes (extended: 0 Unknown … 5 Closed) -/
+def coarseToExtended (s : Nat) : Nat := if s = 0 then 0 else if s = 1 then 5 else 2
+/-- `decode_extended_market_status` (v11) -/
+def decodeExtendedMarketStatus (s : Nat) : Option Nat := if s ≤ 5 then some s else none
+/-- `biguint_to_u192`: more than three u64 digits ⇒ InvalidData -/
+def biguintToU192 (n : Nat) : Option Nat := if n < 2 ^ 192 then some n else none
+/-- `bigint_to_signed`: `(sign != Minus, magnitude)` -/
+def bigintToSigned (z : Int) : Option (Bool × Nat) := (biguintToU192 z.natAbs).map fun m => (decide (0 ≤ z), m)
+
 /-! ### `from_chainlink_report` -/
 /-- the decoded report fields the conversion reads; `Signed = (non-negative?, magnitude)` -/
 structure Rep where
